@@ -253,7 +253,7 @@ PROPS["C12"] = {
         "technique": "Lean 4 proof (truth table for every registration list) + regenerated-kernel tie + differential correspondence"},
 }
 
-COMPOSE_DIFF = {"slice": "compose", "n_quick": 640, "n_thorough": 6400, "seeds_thorough": 3, "n_search": 3200, "par": 16}
+COMPOSE_DIFF = {"slice": "compose", "n_quick": 1920, "n_thorough": 6400, "seeds_thorough": 3, "n_search": 3200, "par": 16}
 COMPOSE_RULE = ("compose slice (retry policies optionally with a max duration and scripts with outcomes that outlast it; scripted cancellation points, see C08): random stacks (depth 0-5, with repetition) of retry / breaker / bulkhead / rate limiter / fallback / cache / timeout "
                 "(+ a hedge in 1 of 6 cases: innermost, or in a third of them at any position) built from the real builders with random configurations and handle/abort/cancel "
                 "conditions; 1-5 successive executions per case against the same stateful instances, scripts of 0-8 outcomes (values 0-2, four "
@@ -270,7 +270,7 @@ COMPOSE_FACTS = ["executeLoop", "effects/executor:executor.execute", "effects/po
 PROPS["C10"] = {
     "props": "Failsafe.Props.C10", "ties": ["Failsafe.Tie.Classify"],
     "kernels": ["is_failure", "with_done", "with_failure"],
-    "facts": COMPOSE_FACTS + ["effects/fallbackexecutor:executor.Apply"],
+    "facts": COMPOSE_FACTS + ["effects/fallbackexecutor:executor.Apply", "bodies/fallback:config.Build"],
     "required_theorems": ["Failsafe.Props.C10.fallback_spec", "Failsafe.Props.C10.fallback_applied_iff", "Failsafe.Props.C10.fallback_output_reclassified",
                           "Failsafe.Props.C10.unhandled_passthrough", "Failsafe.Props.C10.no_fallback_output_under_cancel", "Failsafe.Props.C10.fallback_sees_failed_outcome"],
     "diff": [COMPOSE_DIFF], "rule": COMPOSE_RULE, "assumptions": COMPOSE_ASSUME, "modelled": COMPOSE_MODELLED,
@@ -391,8 +391,8 @@ PROPS["C13"] = {
 }
 
 PROPS["C18"] = {
-    "props": "Failsafe.Props.C18", "ties": ["Failsafe.Tie.Adapters"],
-    "kernels": ["http_retry_handle", "http_delay_func", "grpc_retry_handle"],
+    "props": "Failsafe.Props.C18", "ties": ["Failsafe.Tie.Adapters", "Failsafe.Tie.Delay"],
+    "kernels": ["http_retry_handle", "http_delay_func", "grpc_retry_handle", "get_delay", "adjust_jitter", "adjust_max_duration"],
     "facts": ["httpReleaseOnBodyClose", "httpClosesPreviousResponse", "grpcRetryableCodes", "httpRetryBuilderChain", "grpcRetryBuilderChain", "httpRegexes",
               "bodies/http:.doRequest", "bodies/http:.bodyReader", "bodies/http:cancelOnCloseBody.Close", "bodies/http:roundTripper.RoundTrip", "bodies/http:Request.Do",
               "bodies/util:.MergeContexts", "bodies/client:.NewUnaryClientInterceptorWithExecutor", "bodies/server:.NewUnaryServerInterceptorWithExecutor"],
@@ -406,6 +406,7 @@ PROPS["C18"] = {
         "Failsafe.Props.C18.grpc_retryable_iff", "Failsafe.Props.C18.generated_grpc_retryable_iff", "Failsafe.Props.C18.grpc_next_attempt_iff", "Failsafe.Props.C18.grpc_returned_is_last",
         "Failsafe.Props.C18.returned_body_readable", "Failsafe.Props.C18.body_unreadable_witness", "Failsafe.Props.C18.http_release_shape",
         "Failsafe.Tie.Adapters.tie_retryHandle", "Failsafe.Tie.Adapters.tie_delayFn", "Failsafe.Tie.Adapters.tie_grpcHandle", "Failsafe.Tie.Adapters.grpc_table",
+        "Failsafe.Tie.Delay.tie_getDelay", "Failsafe.Tie.Delay.tie_adjustForMaxDuration", "Failsafe.Tie.Delay.tie_adjustForJitter",
     ],
     "diff": [{"slice": "adapters", "n_quick": 160, "n_thorough": 1600, "seeds_thorough": 3, "n_search": 800, "par": 8}],
     "rule": "adapters slice: (i) exhaustive tables without network: the HTTP retry policy on fabricated responses with every status 100..599 (+0, 600, 999, -1) and on fabricated errors "
@@ -414,7 +415,7 @@ PROPS["C18"] = {
             "interceptor on 6 x 7 context kinds x which source fires; (ii) per case one random end-to-end HTTP scenario against a loopback server (entry point RoundTripper / "
             "Request.Do; body none / NoBody / bytes.Buffer / bytes.Reader / strings.Reader / seekable stream / seekable stream handed over at offset 10 / plain stream, sizes "
             "0..70000 (1 MiB thorough), non-periodic payload; request context background / TODO / values / cancellable / deadline; executor context likewise; stack = optional "
-            "fallback, HTTP retry policy with 0-3 retries with or without ReturnLastFailure, and transparent inner timeout / hedge / breaker; server script of 1-5 attempts "
+            "fallback, HTTP retry policy with 0-3 retries with or without ReturnLastFailure, in a quarter of the cases with an exponential backoff (2 ms .. 20 ms) added, and transparent inner timeout / hedge / breaker; server script of 1-5 attempts "
             "from 13 statuses, Retry-After 0 / 1 / abc / -1, empty / small / 200 kB / streamed bodies, dropped connections), one timed scenario (timeout firing on slow "
             "attempts; a hedge overlapping two attempts; caller cancelling mid-attempt) and one gRPC scenario (client or server interceptor, fake invoker / handler, script of "
             "status codes, stacks with retry / timeout / hedge / breaker). Observed: requests as received by the server (method, URL, headers, body bytes, arrival times), "
@@ -550,7 +551,7 @@ PROPS["C04"] = {
 PROPS["C07"] = {
     "props": "Failsafe.Props.C07", "ties": [], "kernels": [],
     "facts": ["effects/timeoutexecutor:executor.Apply", "bodies/timeoutexecutor:executor.Apply", "bodies/timeoutexecutor:executor.IsFailure",
-              "bodies/execution:execution.Cancel", "bodies/execution:execution.CopyForCancellable"],
+              "bodies/execution:execution.Cancel", "bodies/execution:execution.CopyForCancellable", "bodies/timeout:config.Build"],
     "required_theorems": ["Failsafe.Props.C07.timeout_exclusive", "Failsafe.Props.C07.timeout_safe", "Failsafe.Props.C07.timeout_not_early",
                           "Failsafe.Props.C07.blocked_fn_times_out", "Failsafe.Props.C07.reach_closed_false", "Failsafe.Props.C07.reach_closed_true"],
     "diff": [COMPOSE_DIFF],
@@ -574,7 +575,7 @@ PROPS["C08"] = {
                           "Failsafe.Props.C08.cancelRes_is_cause", "Failsafe.Props.C08.retry_stops_when_cancelled",
                           "Failsafe.Props.C08.retry_cancelled_during_delay", "Failsafe.Props.C08.trigger_ext"],
     "diff": [COMPOSE_DIFF],
-    "rule": COMPOSE_RULE + "; a quarter of the runs without blocking outcomes carry a scripted cancellation point: the harness cancels the execution (through its context, or through ExecutionResult.Cancel for async runs) from inside the k-th function invocation, from inside the k-th OnRetryScheduled listener, or before it starts, and the model predicts result, error, events, statistics and world exactly. STRESS cancel: 8 stacks (retry; fallback>retry; retry>breaker; retry>hedge; fallback>retry>hedge; retry>rate limiter waiting; retry>full bulkhead waiting) x 4 sources (context cancel, context deadline, async Cancel, enclosing Timeout) x cancellation instant drawn over 0-1.5 ms (before the first attempt, inside the function, between attempts, during a policy's wait); monitors: error identifies the cause, enclosed fallback never applied, completes within 400 ms (the waits it must not sit out are 1 s long), at most one attempt starts after the cancellation",
+    "rule": COMPOSE_RULE + "; a quarter of the runs without blocking outcomes carry a scripted cancellation point: the harness cancels the execution (through its context, or through ExecutionResult.Cancel for async runs) from inside the k-th function invocation, from inside the k-th OnRetryScheduled listener, or before it starts, and the model predicts result, error, events, statistics and world exactly. STRESS cancel: 9 stacks (retry; fallback>retry; retry>breaker; retry>hedge; fallback>retry>hedge; retry>rate limiter waiting; retry>full bulkhead waiting; waiting rate limiter>retry; full bulkhead>retry) x 4 sources (context cancel, context deadline, async Cancel, enclosing Timeout) x cancellation instant drawn over 0-1.5 ms (before the first attempt, inside the function, between attempts, during a policy's wait); monitors: error identifies the cause, enclosed fallback never applied, completes within 400 ms (the waits it must not sit out are 1 s long), at most one attempt starts after the cancellation",
     "runners": [stress_runner("cancel", "a cancelled execution reported an error other than its cause, or applied a fallback enclosed by the cancellation, or kept running attempts / waiting after the cancellation")],
     "assumptions": CONC_ASSUME + COMPOSE_ASSUME + ["exactly one cancellation source is active per scenario (the property's quantifier)"],
     "modelled": ["context propagation to child contexts, the mutex and channel close are modelled", "hedge/bulkhead/limiter waits are covered by FACTS (every wait has a cancellation branch) and the stress run",
